@@ -43,7 +43,7 @@ def scripted (S idx : Nat) (answers : List (Nat × Char)) : Hasher := fun code d
 def parseSpec (spec : String) : Option (List (List (Nat × Char))) :=
   if spec.isEmpty then some [] else
   (spec.splitOn ";").mapM fun h =>
-    ((h.splitOn ",").filter (!·.isEmpty)).mapM fun kv =>
+    ((h.splitOn ",").filter (fun s => !s.isEmpty && s != "-")).mapM fun kv =>
       match kv.splitOn ":" with
       | [c, k] => do pure (← c.toNat?, ← k.toList.head?)
       | _ => none
